@@ -10,13 +10,22 @@ import (
 // RecoverHandler 返回一个异常捕获中间件。
 func RecoverHandler(next http.Handler) http.Handler {
 	return http.HandlerFunc(func(w http.ResponseWriter, r *http.Request) {
+		// next 正常返回才置为 true：go.mod 声明 go 1.19，panic(nil)（如重新抛出一个恰好为 nil 的
+		// error 变量）时 recover() 返回 nil，单看 recover 的返回值会把这次 panic 当成正常结束，
+		// 客户端收到的是 200 而不是 500
+		completed := false
 		defer func() {
-			if result := recover(); result != nil {
+			result := recover()
+			if result == nil && !completed {
+				result = "panic(nil)"
+			}
+			if result != nil {
 				internal.Error(r, fmt.Sprintf("%v\n%s", result, debug.Stack()))
 				w.WriteHeader(http.StatusInternalServerError)
 			}
 		}()
 
 		next.ServeHTTP(w, r)
+		completed = true
 	})
 }
